@@ -405,6 +405,78 @@ Definition run_hand (a : sx) : sx :=
   | _ => sx_err "hand"
   end.
 
+(** liteclient's private framing helpers and hand-assembled query frames (Model/TlHand.v) *)
+(* c10.lclen: n -> encodeLength(n); below 2^24 it must be the TL length prefix *)
+Definition run_lclen (a : sx) : sx :=
+  match a with
+  | SN n =>
+      let g := lc_encode_length n in
+      if N.ltb n two24 && negb (bytes_eqb g (bytes_header n)) then SA "specdiff" else SBytes g
+  | _ => sx_err "lclen"
+  end.
+(* c10.lcdec: bytes -> decodeLength: (n, bytes left) *)
+Definition run_lcdec (a : sx) : sx :=
+  match a with
+  | SBytes b => match lc_decode_length b with
+                | Ok (n, rest) => SL [SN n; sx_nat (length rest)]
+                | _ => SA "err"
+                end
+  | _ => sx_err "lcdec"
+  end.
+Definition run_lcalign (a : sx) : sx :=
+  match a with SBytes b => SBytes (lc_align b) | _ => sx_err "lcalign" end.
+
+Definition zeros32 : bytes := repeat 0%N 32.
+(* c10.adnlreq: (query answer) -> (Request's ADNL payload without the random query id,
+   what Request returns when the server answers with the TL bytes of answer) *)
+Definition run_adnlreq (a : sx) : sx :=
+  match a with
+  | SL [SBytes q; SBytes resp] =>
+      let p := lc_request_payload zeros32 q in
+      let frame := firstn 4 p ++ skipn 36 p in
+      let spec := le_bytes 4 magic_adnl_query ++ enc_bytes q in
+      if N.ltb (N.of_nat (length q)) two24 && negb (bytes_eqb frame spec) then SA "specdiff" else
+      SL [SBytes frame;
+          out_bytes (lc_process_answer (le_bytes 4 magic_adnl_answer ++ zeros32 ++ enc_bytes resp))]
+  | _ => sx_err "adnlreq"
+  end.
+
+(* c10.wait: ('seqno|'block seqno timeout response) -> (query inside liteServer.query, outcome) *)
+Definition wait_block_value (seqno : N) : value :=
+  VRec "" [("Mode", VNum 1);
+           ("Id", VRec "" [("Workchain", VNum 4294967295); ("Shard", VNum 9223372036854775808); ("Seqno", VNum seqno)])].
+Definition run_wait (a : sx) : sx :=
+  match a with
+  | SL [SA k; SN seqno; SN tmo; SBytes resp] =>
+      match find (fun m => String.eqb (m_name m) "LiteServerLookupBlock") tl_methods with
+      | None => sx_err "wait-method"
+      | Some m =>
+          if String.eqb k "seqno" then
+            let oc :=
+              if short 4 resp then SA "err"
+              else if N.eqb (le_num (firstn 4 resp)) (m_err_id m) then
+                match go_unmarshal tl_bindings (GNamed "LiteServerErrorC") (skipn 4 resp) with
+                | (Ok v, _) =>
+                    match v with
+                    | VRec _ fs => match assoc "Code" fs with
+                                   | Some (VNum 0%N) => SA "ok"
+                                   | _ => SL [SA "lserror"; sx_of_value v]
+                                   end
+                    | _ => SA "err"
+                    end
+                | _ => SA "err"
+                end
+              else SA "err" in
+            SL [SBytes (lc_wait_prefix seqno tmo); oc]
+          else
+            match go_request tl_bindings m (Some (wait_block_value seqno)) with
+            | Ok body => SL [SBytes (lc_wait_prefix seqno tmo ++ body); out_response (go_response tl_bindings m resp)]
+            | _ => SA "err"
+            end
+      end
+  | _ => sx_err "wait"
+  end.
+
 Definition run (name : string) (a : sx) : sx :=
   let is x := String.eqb name x in
   if is "c10.marshal" then run_marshal_any a
@@ -419,4 +491,9 @@ Definition run (name : string) (a : sx) : sx :=
   else if is "c10.bmarshal" then run_bmarshal a
   else if is "c10.bunmarshal" then run_bunmarshal a
   else if is "c10.hand" then run_hand a
+  else if is "c10.lclen" then run_lclen a
+  else if is "c10.lcdec" then run_lcdec a
+  else if is "c10.lcalign" then run_lcalign a
+  else if is "c10.adnlreq" then run_adnlreq a
+  else if is "c10.wait" then run_wait a
   else sx_err "unknown case kind".
